@@ -6,6 +6,7 @@ and a recording backend whose measurement outcomes are scripted by the harness.
 tree :=  {"n":[p,q]} | {"f":name} | {"m":mode} | {"add":[a,b]} | {"mul":[a,b]} | {"neg":a}
        | {"pow":[a,b]} | {"fn":name,"a":[x]} | {"fn":name,"a":[x,y]}
 """
+import json
 import math
 from fractions import Fraction
 
@@ -162,6 +163,11 @@ def gen_expr(rng, depth, free_names, meas_modes, p_atom=0.35):
         # forms SymPy would rewrite at construction if an atom carried an assumption (real, positive, integer …):
         # sqrt(x**2), Abs(x), sign(x), sin(pi*x), cos(pi*x), floor(c*x)
         x = sub()
+        if not (atoms(x, "f") or atoms(x, "m")) and leafs:
+            # (on a constant SymPy would fold with the exact pi: cos(3*pi/2) is 0 exactly, a float evaluation gives -2e-16,
+            # and sign / floor behind it differ legitimately)
+            k, v = rng.choice(leafs)
+            x = {"add": [x, {k: v}]}
         return rng.choice([
             {"pow": [{"pow": [x, num(2)]}, num(0.5)]}, {"fn": "Abs", "a": [x]}, {"fn": "sign", "a": [x]},
             {"fn": "sin", "a": [{"fn": "pimul", "a": [x]}]}, {"fn": "cos", "a": [{"fn": "pimul", "a": [x]}]},
@@ -222,7 +228,15 @@ def gen_cexpr(rng, depth, cmodes, rmodes=(), free_names=(), real=True):
         if k in ("re", "im", "arg"):
             return {"fn": k, "a": [cplx(d - 1)]}
         if k == "abs":
-            return {"fn": "Abs", "a": [cplx(d - 1)]}
+            # (not Abs of a power: SymPy stores Abs(conjugate(q)**2) as sqrt(q**2*conjugate(q)**2), a complex-TYPED value
+            # that real-only NumPy functions behind it — arctan2 in CXgate, thewalrus' rotation — refuse; SymPy's choice)
+            for _ in range(20):
+                a = cplx(d - 1)
+                if '"pow"' not in json.dumps(a):
+                    break
+            else:
+                a = q()
+            return {"fn": "Abs", "a": [a]}
         if k == "add":
             return {"add": [realv(d - 1), realv(d - 1)]}
         if k == "mul":
